@@ -107,13 +107,24 @@ func c04Prop(c c04Case) ev.Outcome {
 
 func TestC04(t *testing.T) {
 	r := ev.New("C04", "exploration",
-		"widest query grammar (single-source, 2-3 way inner/LOOKUP/LEFT/RIGHT/OUTER joins whose branches are tables, filtering/projecting/DISTINCT subqueries or range(), WHERE above joins, GROUP BY above joins, projections leaving columns unused, CTEs) over generated CSV and JSON tables; only total expressions (no division: pushdown may legitimately change which rows an erroring expression sees); "+
+		"widest query grammar (single-source, 2-3 way inner/LOOKUP/LEFT/RIGHT/OUTER joins whose branches are tables, filtering/projecting/DISTINCT subqueries or range(), WHERE above joins, GROUP BY above joins, projections leaving columns unused, CTEs) over generated CSV (incl. quoted multi-line fields) and JSON tables, plus queries that read no column at all (count(*) / constants); only total expressions (no division: pushdown may legitimately change which rows an erroring expression sees); "+
 			"oracle: the default optimised run and --optimize=false give the same exit status and the same multiset of rows (same sequence under ORDER BY; queries with outer joins always carry an ORDER BY over all output columns so the eager output is consolidated). "+
 			"non-trivial: non-empty result and a filter/join/subquery/CTE for the optimiser to work on. distinct=(SQL, files)")
 	ev.Check(t, r, "optimised_vs_not", ev.N(6000, 100000), func(t *rapid.T) c04Case {
 		var tables []gen.TableSpec
 		var q gen.Q
-		switch rapid.IntRange(0, 4).Draw(t, "shape") {
+		shape := rapid.IntRange(0, 5).Draw(t, "shape")
+		if shape == 5 {
+			// a query that reads no column of the file at all (every column is pruned by the optimiser)
+			tbl := gen.Table(t, gen.TableOpts{Name: "ta", MinRows: 0})
+			tables = []gen.TableSpec{tbl}
+			q = gen.Q{From: gen.Src{Kind: "table", Table: tbl.File(), Alias: "t"}, Grouped: true, Items: []gen.Item{{Agg: "count", Star: true, Alias: "n"}}}
+			if rapid.Bool().Draw(t, "const") {
+				q = gen.Q{From: gen.Src{Kind: "table", Table: tbl.File(), Alias: "t"}, Items: []gen.Item{{E: gen.E{Op: "lit", Kind: "int", Lit: &gen.JV{K: "int", I: 1}}, Alias: "one"}}}
+			}
+		}
+		switch shape {
+		case 5:
 		case 0:
 			tbl := gen.Table(t, gen.TableOpts{Name: "ta", MinRows: 1})
 			tables = []gen.TableSpec{tbl}
@@ -126,6 +137,19 @@ func TestC04(t *testing.T) {
 			n := rapid.IntRange(2, 3).Draw(t, "ntables")
 			tables = gen.JoinTables(t, n)
 			q = gen.Wide(t, tables, "q")
+		}
+		// CSV cells with an embedded newline (a quoted multi-line field): records are not physical lines
+		for ti := range tables {
+			if tables[ti].Format != "csv" {
+				continue
+			}
+			for r := range tables[ti].Rows {
+				for ci, col := range tables[ti].Cols {
+					if col.Kind == "str" && tables[ti].Rows[r][ci].K == "str" && !(ci == 0 && col.Name == "k") && rapid.IntRange(0, 5).Draw(t, fmt.Sprintf("nl%d_%d_%d", ti, r, ci)) == 0 {
+						tables[ti].Rows[r][ci] = gen.Str(tables[ti].Rows[r][ci].S + "\nx")
+					}
+				}
+			}
 		}
 		return c04Case{Tables: tables, Q: q, SQL: q.SQL()}
 	}, c04Prop)
